@@ -141,7 +141,7 @@ class Env:
 
 
 class Sim:
-    def __init__(self, text, top=None, temporaries=None, poison=True, parsed=None):
+    def __init__(self, text, top=None, temporaries=None, poison=True, parsed=None, init=None):
         """temporaries: optional {(entity_lower, process_label_lower|None, name_lower)} of objects that are
         compiler temporaries (poisoned at the start of each activation)."""
         self.issues = []            # static conformance findings: (kind, detail)
@@ -206,6 +206,9 @@ class Sim:
         self.top = self.elaborate(self.top_name, None, '')
         self.check_drivers()
         self.initial_S = None
+        # the test bench drives the inputs from time 0 (otherwise 'U' inputs trigger e.g. active-low resets)
+        for n, v in (init or {}).items():
+            self.S[self.top['sig'][n.lower()]] = v
         self.settle(initial=True)
 
     # ------------------------------------------------------------------ reporting
